@@ -325,6 +325,23 @@ def twin_schemas():
     return out
 
 
+def mixed_schema():
+    """one class holding, for every packable scalar kind, BOTH a singular and a repeated field (plus a singular and a repeated
+    string): whether a length-delimited occurrence fits a field depends on the field, not only on its type (seeded change C17-7:
+    a per-class memo of the wire-type verdict keyed by (type, wire type))"""
+    kinds = ["int32", "sint64", "uint32", "bool", "fixed32", "sfixed64", "float", "double"]
+    fields, n = [], 1
+    for k in kinds:
+        fields.append(Field(f"s_{k}", n, "plain", scalar(k)))
+        fields.append(Field(f"r_{k}", n + 1, "repeated", scalar(k)))
+        n += 2
+    fields.append(Field("s_enum", n, "plain", Elem("enum", "enum", 0)))
+    fields.append(Field("r_enum", n + 1, "repeated", Elem("enum", "enum", 0)))
+    fields.append(Field("s_string", n + 2, "plain", scalar("string")))
+    fields.append(Field("r_string", n + 3, "repeated", scalar("string")))
+    return Schema([Cls("Mixed", fields)], [[("ZERO", 0), ("ONE", 1), ("NEG", -1)]])
+
+
 def random_schema(rng, nclasses=None):
     nclasses = nclasses or rng.randint(1, 4)
     enums = []
